@@ -738,6 +738,81 @@ func CongruentProgram() *Program {
 	return &Program{Name: "congruent", Main: "main.proto", Files: []*File{f}}
 }
 
+// HighUnorderedProgram: field numbers beyond the small dense ranges (4097 .. 2^20), declared in non-ascending order
+// in the root and in a nested message, next to low numbers.
+func HighUnorderedProgram() *Program {
+	sub := &Msg{Name: "SubH", Fields: []*Field{F("z", 70000, Int32), F("a", 1, String), F("m", 5000, Sint64), F("y", 65536, String)}}
+	t := &Msg{Name: "T", Fields: []*Field{F("id", 1, String), F("trace", 1048575, String), F("count", 2, Int32), F("shard", 4097, Uint32),
+		F("labels", 40000, String).Repeated(), FM("inner", 9000, "SubH"), F("delta", 4100, Sint32), F("tags", 32768, Int32).MapOf(String), FM("subs", 8191, "SubH").Repeated()}}
+	f := &File{Path: "main.proto", Pkg: Pkg, Msgs: []*Msg{sub, t}, Svcs: []*Service{OneMethodService("T", "T")}}
+	return &Program{Name: "high-unordered", Main: "main.proto", Files: []*File{f}}
+}
+
+func highUnorderedCases(yield func(*ConvCase) bool) bool {
+	prog := HighUnorderedProgram()
+	names := []string{"id", "trace", "count", "shard", "labels", "inner", "delta", "tags", "subs"}
+	// every single field alone, and all of them
+	for k := 0; k <= len(names); k++ {
+		k := k
+		what := "all"
+		if k < len(names) {
+			what = names[k]
+		}
+		c := &ConvCase{Prog: prog, What: "high field numbers declared out of order: " + what, Focus: "high-numbers-unordered",
+			Build: func(ref *Ref) protoreflect.Message {
+				root := dynamicpb.NewMessage(ref.Msg(Pkg + ".T"))
+				fs := root.Descriptor().Fields()
+				has := func(n string) bool { return k == len(names) || names[k] == n }
+				subOf := func(md protoreflect.MessageDescriptor, i int32) protoreflect.Message {
+					sm := dynamicpb.NewMessage(md)
+					sf := sm.Descriptor().Fields()
+					sm.Set(sf.ByName("z"), protoreflect.ValueOfInt32(7+i))
+					sm.Set(sf.ByName("a"), protoreflect.ValueOfString("sub"))
+					sm.Set(sf.ByName("m"), protoreflect.ValueOfInt64(-5-int64(i)))
+					sm.Set(sf.ByName("y"), protoreflect.ValueOfString("why"))
+					return sm
+				}
+				if has("id") {
+					root.Set(fs.ByName("id"), protoreflect.ValueOfString("r-1"))
+				}
+				if has("trace") {
+					root.Set(fs.ByName("trace"), protoreflect.ValueOfString("t-9"))
+				}
+				if has("count") {
+					root.Set(fs.ByName("count"), protoreflect.ValueOfInt32(7))
+				}
+				if has("shard") {
+					root.Set(fs.ByName("shard"), protoreflect.ValueOfUint32(3))
+				}
+				if has("labels") {
+					l := root.Mutable(fs.ByName("labels")).List()
+					l.Append(protoreflect.ValueOfString("a"))
+					l.Append(protoreflect.ValueOfString("b"))
+				}
+				if has("inner") {
+					root.Set(fs.ByName("inner"), protoreflect.ValueOfMessage(subOf(fs.ByName("inner").Message(), 0)))
+				}
+				if has("delta") {
+					root.Set(fs.ByName("delta"), protoreflect.ValueOfInt32(-4))
+				}
+				if has("tags") {
+					m := root.Mutable(fs.ByName("tags")).Map()
+					m.Set(protoreflect.ValueOfString("k").MapKey(), protoreflect.ValueOfInt32(11))
+				}
+				if has("subs") {
+					l := root.Mutable(fs.ByName("subs")).List()
+					l.Append(protoreflect.ValueOfMessage(subOf(fs.ByName("subs").Message(), 1)))
+					l.Append(protoreflect.ValueOfMessage(subOf(fs.ByName("subs").Message(), 2)))
+				}
+				return root
+			}}
+		if !yield(c) {
+			return false
+		}
+	}
+	return true
+}
+
 func congruentCases(yield func(*ConvCase) bool) bool {
 	prog := CongruentProgram()
 	for _, which := range []string{"rs+s", "m+b", "rm+sm", "rs+rs2", "all"} {
@@ -806,7 +881,7 @@ func congruentCases(yield func(*ConvCase) bool) bool {
 // ScopeGroups lists the groups of the shared conversion scope.
 func ScopeGroups(tier string) []string {
 	g := append([]string{}, valueGroups...)
-	g = append(g, "presence", "jsonnames", "recursion", "samename", "congruent", "explicit-presence")
+	g = append(g, "presence", "jsonnames", "recursion", "samename", "congruent", "explicit-presence", "high-unordered")
 	g = append(g, structGroups()...)
 	return g
 }
@@ -829,6 +904,8 @@ func ScopeEnumerate(tier, group string, yield func(*ConvCase) bool) bool {
 		return sameNameCases(yield)
 	case group == "congruent":
 		return congruentCases(yield)
+	case group == "high-unordered":
+		return highUnorderedCases(yield)
 	case group == "explicit-presence":
 		return explicitPresenceCases(yield)
 	}
